@@ -26,7 +26,11 @@ def corpus():
             out.append(("seed__%s" % os.path.basename(sd), os.path.join(sd, "patch.diff"), "breaking", meta["property"]))
     for pf in sorted(glob.glob(os.path.join(V, "mutants", "benign", "*.patch"))):
         out.append(("benign__%s" % os.path.basename(pf)[:-6], pf, "benign", None))
+    rj = os.path.join(V, "refactors", "residual.json")
+    residual = set(json.load(open(rj))["residual"]) if os.path.exists(rj) else set()
     for pf in sorted(glob.glob(os.path.join(V, "refactors", "*.patch"))):
+        if os.path.basename(pf)[:-6] in residual:
+            continue
         out.append(("ref__%s" % os.path.basename(pf)[:-6], pf, "benign", None))
     return out
 
